@@ -11,6 +11,7 @@ import (
 	_ "verifharness/internal/props/c08"
 	_ "verifharness/internal/props/c09"
 	_ "verifharness/internal/props/c10"
+	_ "verifharness/internal/props/c11"
 	_ "verifharness/internal/props/c12"
 	_ "verifharness/internal/props/c13"
 	_ "verifharness/internal/props/c14"
